@@ -218,11 +218,76 @@ fn builder_orders(ctx: &Ctx, rep: &mut Report) {
     println!("part builder-call-orders: {} call sequences, {} terminals", seqs.len(), n);
 }
 
+/// Tall screens with small limits, scrolled a line or two per call: the bound is a bound on
+/// `rows + L + L/10` whatever the ratio of the three; every row count around the powers of
+/// two and of ten up to 10 000 (thorough 70 000) x every small limit x four ways of scrolling
+/// a little per call (Changes consumed and dropped), the bound after EVERY call.
+fn tall_screens(ctx: &Ctx, rep: &mut Report) {
+    use rayon::prelude::*;
+    let mut rows: Vec<usize> = vec![];
+    for k in 5..=ctx.tier.pick(13u32, 16) {
+        let b = 1usize << k;
+        rows.extend([b - 1, b, b + 1]);
+    }
+    rows.extend([100, 200, 300, 500, 600, 1000, 1200, 5000, 10_000]);
+    if ctx.tier == Tier::Thorough {
+        rows.extend([20_000, 50_000, 70_000]);
+    }
+    rows.sort();
+    rows.dedup();
+    let limits = [0usize, 1, 2, 3, 9, 10, 11, 25, 100, 1000];
+    let scripts: [(&str, &str); 4] = [("one line feed", "\n"), ("a short line", "x\r\n"), ("two lines", "ab\r\ncd\r\n"), ("a wrapped line", "abcdefghijklmnopqrstuvwxyz\r\n")];
+    let cases: Vec<(usize, usize, usize)> = rows.iter().flat_map(|&r| limits.iter().flat_map(move |&l| (0..scripts.len()).map(move |s| (r, l, s)))).collect();
+    let bad: Vec<String> = cases
+        .par_iter()
+        .filter_map(|&(r, l, si)| {
+            let res = crate::engine::guarded(|| {
+                for cols in [10usize, 4] {
+                    let mut vt = build_vt(cols, r, Some(l));
+                    let bound = r + l + l / 10;
+                    let _ = vt.feed_str(&format!("\x1b[{};1H", r));
+                    for call in 0..(l + l / 10 + 8).min(40) {
+                        if call % 2 == 0 {
+                            let _ = vt.feed_str(scripts[si].1).scrollback.count();
+                        } else {
+                            let _ = vt.feed_str(scripts[si].1);
+                        }
+                        let n = vt.lines().len();
+                        if n > bound || (l == 0 && n != r) {
+                            return Some(format!("{}x{}, limit {}: after call {} ({}) lines() has {} lines, the bound is {}", cols, r, l, call + 1, scripts[si].0, n, bound));
+                        }
+                    }
+                    let _ = vt.resize(cols, r - 1);
+                    let n = vt.lines().len();
+                    if n > r - 1 + l + l / 10 {
+                        return Some(format!("{}x{}, limit {}: after shrinking by one row lines() has {} lines, the bound is {}", cols, r, l, n, r - 1 + l + l / 10));
+                    }
+                }
+                None
+            });
+            match res {
+                Ok(x) => x,
+                Err(p) => Some(format!("{} rows, limit {}: panic: {}", r, l, p)),
+            }
+        })
+        .collect();
+    let n = cases.len() as u64;
+    rep.evaluations += n * 40;
+    rep.transitions += n * 40;
+    rep.parts.push(serde_json::json!({"part":"tall-screens-small-limits","row_counts":rows.len(),"max_rows":rows.last(),"limits":limits.len(),"scripts":scripts.len(),"cases":n,"violating":bad.len()}));
+    println!("part tall-screens-small-limits: {} (rows, limit, script) cases up to {} rows, {} violating", n, rows.last().unwrap(), bad.len());
+    if let Some(d) = bad.first() {
+        emit_violation(ctx, rep, "C13", serde_json::json!({"part":"tall-screens-small-limits","oracle":"retention-bound","observed":d}));
+        rep.violations += bad.len() as u64 - 1;
+    }
+}
+
 pub fn run(ctx: &Ctx) -> Report {
     let mut rep = Report::new();
     let p = parts!(ctx.tier);
     run_part(ctx, &mut rep, &p);
     builder_orders(ctx, &mut rep);
+    tall_screens(ctx, &mut rep);
     rep.rule = "BFS over histories of scroll-producing feeds (drained, dropped, partially drained, per-char) and resizes for limits 0,1,2,3,9,10,11,20; after every feed_str/resize call lines().len() is compared with rows+L+floor(L/10) and with rows on the alternate screen; non-trivial = calls that return with scrollback present; builder-call-orders: every sequence of <= 3 Builder calls over two sizes and three limits (156 sequences, first and second terminal built), then three scrolling calls under the bound of the limit last given".into();
     rep.assumptions = vec![
         "alternate-screen showing is tracked syntactically from the commands (alphabet has no truncated sequences)".into(),
@@ -238,6 +303,12 @@ pub fn replay(ctx: &Ctx, v: &Value) -> bool {
         return rep.violations > 0;
     }
     let tier = if v["tier"] == "thorough" { Tier::Thorough } else { Tier::Quick };
+    if v["part"] == "tall-screens-small-limits" {
+        let mut rep = Report::new();
+        let c2 = Ctx { id: ctx.id.clone(), tier, seed: 0, start: ctx.start, known: ctx.known.clone(), replay_dir: ctx.replay_dir.clone() };
+        tall_screens(&c2, &mut rep);
+        return rep.violations > 0;
+    }
     let p = parts!(tier);
     replay_part(ctx, &p, v)
 }
